@@ -100,6 +100,25 @@ func genIndexTable(t *rapid.T) (kit.Schema, indexCfg, map[string][]model.ClientI
 	if len(cis) > 0 {
 		indexes = map[string][]model.ClientIndex{"T0": cis}
 	}
+	if rapid.IntRange(0, 2).Draw(t, "secondtable") == 0 {
+		// a second table with the same columns and client indexes of its own: the index
+		// configuration of one table is nobody else's
+		tb1 := kit.Table{Name: "T1", IsRoot: true, Cols: append([]kit.Col{}, tb.Cols...)}
+		s.Tables = append(s.Tables, tb1)
+		var cis1 []model.ClientIndex
+		for i, n := 0, rapid.IntRange(1, 3).Draw(t, "nclientidx1"); i < n; i++ {
+			if rapid.IntRange(0, 3).Draw(t, "mapkey1") == 0 {
+				cis1 = append(cis1, model.ClientIndex{Columns: []model.ColumnKey{{Column: "m", Key: rapid.SampledFrom([]string{"k1", "k2", "k3"}).Draw(t, "key1")}}})
+			} else {
+				cis1 = append(cis1, model.ClientIndex{Columns: []model.ColumnKey{{Column: rapid.SampledFrom(plain).Draw(t, "ccol1")}}})
+			}
+		}
+		if indexes == nil {
+			indexes = map[string][]model.ClientIndex{}
+		}
+		indexes["T1"] = cis1
+		kit.Label("C05", "config:second-table-with-client-indexes")
+	}
 	return s, cfg, indexes
 }
 
